@@ -8,7 +8,7 @@ BASELINE_OFF = "cd /repo && GOFLAGS=-mod=mod GOPROXY=off GOSUMDB=off GOTOOLCHAIN
 CHECKS = {
  "C20": ("fault_enumeration", "poll-fault",
   "exhaustive fault-point enumeration: cancellation injected at every ctx.Done() poll index of every run",
-  "For every (path, document) of a pool covering all node kinds (plus generated paths), every entry point, both context errors, silent and verbose: the context reports done from the k-th poll, for every k in 0..n. Exhaustive in k; bounded in paths/documents.",
+  "For every (path, document) of a pool covering all node kinds (plus generated paths), every entry point, three kinds of ended context (Canceled, DeadlineExceeded, cancel-with-cause), silent and verbose: the context reports done from the k-th poll, for every k in 0..n. Exhaustive in k; bounded in paths/documents.",
   "Trusts that the executor observes cancellation only through ctx.Done()/ctx.Err(); programs and documents outside the pool/generated space are not covered.",
   "DESIGN.md §3 C20"),
  "C07": ("model_checking", "ref-conformance",
@@ -102,7 +102,7 @@ CHECKS = {
   "Years outside 1..9999 and offsets with seconds are outside the property; Go's tz database is trusted.",
   "DESIGN.md §3 C18"),
  "C19": ("model_checking", "scheduler",
-  "stateless schedule exploration: controlled cooperative scheduler over real goroutines, depth-first over all interleavings with a bounded number of preemptions; explicit-state BFS over call histories with a reflect fingerprint as state hash",
+  "stateless schedule exploration: controlled cooperative scheduler over real goroutines, depth-first over all interleavings with a bounded number of preemptions; explicit-state BFS over call histories (12 operations incl. a corpus of other Paths, Parse by another holder, calls without WithTZ) with a reflect fingerprint as state hash, every history of <= 2 calls extended regardless, results compared with the same call run alone in a fresh process",
   "864 two- and three-thread scenarios (every pair of entry points on one shared *Path for 28 pool paths, every pair of pool paths sharing document and variables, triples of a core) plus 30 token-level concurrent Parse scenarios; all schedules with <=2 (thorough 3) preemptions (530,000 complete executions in the quick tier); every call must return its solo result and leave document/variables (incl. hidden slice capacity) untouched; BFS over call histories per Path (fixpoint reached at depth 1 on this tree: one state); determinism on fresh inputs; supplementary free-running race-detector pass.",
   "A data race that never changes a result (a write undone before the next yield point, or a benign unsynchronised cache) is invisible to the exhaustive parts and is caught only by the schedule-sampled race pass; lax Exists over multi-member wildcards is not scheduled (unowned map-order nondeterminism).",
   "DESIGN.md §3 C19"),
